@@ -163,12 +163,12 @@ def check(pid, tier, only=None, jobs=None, seed=0, quiet=False):
             tw_t = ob.thorough.get('twin_timeout', tw_t)
         plabels = ['all'] + [l for l, _ in ob.partitions(tier) if l != 'all']
         if len(plabels) > 9:
-            # witness search: the whole domain, then a sample of single partitions (spread over the list), and only
-            # if the tag is still unwitnessed the remaining partitions one by one
+            # witness search: the whole domain, then a sample of single partitions (spread over the list); a tag
+            # still unwitnessed after that may be witnessed by a declared concrete dry run that lies inside the
+            # tier's symbolic domain (see below)
             rest = plabels[1:]
             step = max(1, len(rest) // 8)
-            sample = rest[::step][:8]
-            plabels = ['all'] + sample + [l for l in rest if l not in sample]
+            plabels = ['all'] + rest[::step][:8]
         # Witness search: one process per partition would multiply work; instead search partitions in order
         # inside one job list (the runner stops asking once every tag has a witness).
         for what in [('twin', t) for t in sorted(ob.tags_for(tier))] + [('finding', c) for c in sorted(codes)]:
@@ -222,6 +222,7 @@ def check(pid, tier, only=None, jobs=None, seed=0, quiet=False):
         for k in tot:
             tot[k] += res.get(k, 0) or 0
 
+    missing_twins = []
     for (kind, ob, job), r in sorted(results, key=lambda x: (x[0][1].name, x[0][0], str(x[0][2].get('partition')))):
         if kind == 'main':
             n_obl += 1
@@ -294,18 +295,30 @@ def check(pid, tier, only=None, jobs=None, seed=0, quiet=False):
                                                         % (ob.name, v, json.dumps({x: rp.get(x) for x in ('value', 'exception', 'fatal')})))
             for (k, v) in sorted(r['need']):
                 if k == 'twin':
-                    status['inconclusive'].append('%s: vacuity twin for tag %d (%s) found no witness - branch unreachable or precondition vacuous'
-                                                  % (ob.name, v, ob.tags[v]))
+                    missing_twins.append((ob, v))
                 # a listed finding that is no longer refuted: the defect is gone; say nothing
 
     # --- declared concrete dry runs (no solver): must all pass, and count towards "entered"
     dry_info = None
-    if hasattr(hmod, 'dry_runs') and not only:
+    if hasattr(hmod, 'dry_runs') and (not only or missing_twins):
         dry_info = run_replay({'mode': 'dry', 'module': modname}, timeout=600)
         entered_all.update(dry_info.get('entered', []))
         if dry_info.get('fatal') or dry_info.get('n_dry_failures'):
             status['harness_errors'].append('concrete dry runs failed: %s' % json.dumps(
                 {k: dry_info.get(k) for k in ('fatal', 'n_dry_failures', 'dry_failures')})[:600])
+
+    # --- tags the solver's witness search did not reach within its budget: a declared concrete run of the same
+    # obligation that returns the tag AND lies inside this tier's symbolic domain is a witness just as well
+    for ob, v in missing_twins:
+        col = 2 if tier == 'quick' else 3
+        hit = [t for t in ((dry_info or {}).get('tags') or []) if t[0] == ob.name and t[1] == v and t[col]]
+        if hit:
+            witnessed.add((ob.name, v))
+            samples.append({'obligation': ob.name, 'tag': ob.tags[v], 'witness_args': hit[0][4],
+                            'witness_from': 'declared concrete run inside the symbolic domain'})
+        else:
+            status['inconclusive'].append('%s: vacuity twin for tag %d (%s) found no witness - branch unreachable or precondition vacuous'
+                                          % (ob.name, v, ob.tags[v]))
 
     # --- encoded functions actually entered (concrete dry runs = the replayed witnesses)
     not_entered = []
